@@ -46,29 +46,32 @@ def run(ctx):
             ctx.stats = l["stats"]
     ctx.check_theorems("Properties/C03.v")
     ctx.check_theorems("Properties/Composed.v")
-    ds = [l for l in lines if l.get("kind") == "dataset"][0]
+    datasets = {l["name"]: l for l in lines if l.get("kind") == "dataset"}
     loops = [l for l in lines if l.get("kind") == "case" and l["sub"] == "loop"]
     runs = [l for l in lines if l.get("kind") == "case" and l["sub"] == "run"]
-    dterm = cg.dataset(ds)
-    jobs = []
-    for k, sh in enumerate(g.chunks(loops, 12)):
-        body = HEADER + "Definition d : dataset :=\n  %s.\n" % dterm
-        body += "Definition cases : list loopcase := %s.\n" % g.lst([loopcase(c) for c in sh])
-        body += "Definition M := Eval vm_compute in (if wf_dataset d then bool_mismatches (check_loop d) cases 0 else [9999%nat]).\nPrint M.\n"
-        jobs.append(("cases_C03_loop_%d" % k, body, "correspondence:C03:randomisation-loops:%d" % k, sh))
-    for k, sh in enumerate(g.chunks(runs, 1)):
-        body = HEADER + "Definition d : dataset :=\n  %s.\n" % dterm
-        body += "Definition cases : list runcase := %s.\n" % g.lst([runcase(c) for c in sh])
-        body += "Definition M := Eval vm_compute in (if wf_dataset d then bool_mismatches (check_run d) cases 0 else [9999%nat]).\nPrint M.\n"
-        jobs.append(("cases_C03_run_%d" % k, body, "correspondence:C03:run-%s:%d" % (sh[0]["family"], k), sh))
-
     cruns = [l for l in lines if l.get("kind") == "case" and l["sub"] == "crun"]
-    for k, c in enumerate(cruns):
-        body = CHEADER + "Definition d : dataset :=\n  %s.\n" % dterm
-        body += "Definition r : crun := %s.\n" % crun(c)
-        body += "Definition R := Eval vm_compute in (if wf_dataset d then check_crun d r else Some 9999%nat).\nPrint R.\n"
-        body += "Definition M := Eval vm_compute in (match R with None => [] | Some k => [k] end).\nPrint M.\n"
-        jobs.append(("cases_C03_crun_%d" % k, body, "correspondence:C03:composed-multi-objective-run:%d" % k, [c]))
+    jobs = []
+    for di, (dname, ds) in enumerate(datasets.items()):
+        dterm = cg.dataset(ds)
+        dl = [c for c in loops if c.get("dataset", dname) == dname]
+        for k, sh in enumerate(g.chunks(dl, 12)):
+            body = HEADER + "Definition d : dataset :=\n  %s.\n" % dterm
+            body += "Definition cases : list loopcase := %s.\n" % g.lst([loopcase(c) for c in sh])
+            body += "Definition M := Eval vm_compute in (if wf_dataset d then bool_mismatches (check_loop d) cases 0 else [9999%nat]).\nPrint M.\n"
+            jobs.append(("cases_C03_loop_%d_%d" % (di, k), body, "correspondence:C03:%s:randomisation-loops:%d" % (dname, k), sh))
+        dr = [c for c in runs if c.get("dataset", dname) == dname]
+        for k, sh in enumerate(g.chunks(dr, 1)):
+            body = HEADER + "Definition d : dataset :=\n  %s.\n" % dterm
+            body += "Definition cases : list runcase := %s.\n" % g.lst([runcase(c) for c in sh])
+            body += "Definition M := Eval vm_compute in (if wf_dataset d then bool_mismatches (check_run d) cases 0 else [9999%nat]).\nPrint M.\n"
+            jobs.append(("cases_C03_run_%d_%d" % (di, k), body, "correspondence:C03:%s:run-%s:%d" % (dname, sh[0]["family"], k), sh))
+        dc = [c for c in cruns if c.get("dataset", dname) == dname]
+        for k, c in enumerate(dc):
+            body = CHEADER + "Definition d : dataset :=\n  %s.\n" % dterm
+            body += "Definition r : crun := %s.\n" % crun(c)
+            body += "Definition R := Eval vm_compute in (if wf_dataset d then check_crun d r else Some 9999%nat).\nPrint R.\n"
+            body += "Definition M := Eval vm_compute in (match R with None => [] | Some k => [k] end).\nPrint M.\n"
+            jobs.append(("cases_C03_crun_%d_%d" % (di, k), body, "correspondence:C03:%s:composed-multi-objective-run:%d" % (dname, k), [c]))
 
     def one(job):
         name, body, label, sh = job
@@ -85,11 +88,11 @@ def run(ctx):
                         c["trace"] = c["trace"][:3]
                     ctx.notes.append({"mismatch": c})
     boundaries = sum(len(r["trace"]) for r in runs)
-    distinct = len({(r["family"], r["limit"]["var"], str(b["bits"])) for r in runs for b in r["trace"]}) + \
-        len({(str(c["limit"]), str(c["start"]), str(c["picks"])) for c in loops})
+    distinct = len({(r.get("dataset"), r["family"], r["limit"]["var"], str(b["bits"])) for r in runs for b in r["trace"]}) + \
+        len({(c.get("dataset"), str(c["limit"]), str(c["start"]), str(c["picks"])) for c in loops})
     ctx.coverage.update({
         "evaluations": boundaries + len(loops), "distinct_nontrivial": distinct,
-        "rule": "(a) the real CoreModel.Randomize under a limit driven by scripted picks from the starting extreme or a mid-range valid "
+        "rule": "on the shipped ValidModel data set and on generated random data sets: (a) the real CoreModel.Randomize under a limit driven by scripted picks from the starting extreme or a mid-range valid "
                 "state, for all six limitable variables and limits at 5/30/60/95/150 % of the attainable range: outcome (ok / attempt-limit "
                 "panic / picks exhausted) and resulting observables vs Limits.rand_loop; (b) full runs of the kirkpatrick and suppapitnarm "
                 "explorers on the catchment model under limits: every boundary state (after the initial randomisation and after every "
